@@ -1,4 +1,9 @@
-"""Region predicates of known findings (complements of the `_partial` hypotheses)."""
+"""Region predicates of known findings (complements of the `_partial` hypotheses).
+
+The chord-label slice (C10) has no open finding: its only one (trailing newline accepted by CHORD_RE) was repaired
+by `fix: chord label validation no longer accepts a trailing newline`; the entry in known_findings.json is
+"fixed" and its witness is re-run as a regression test, so no region predicate is needed any more.
+"""
 REGIONS = {}
 
 
@@ -7,12 +12,3 @@ def region(name):
         REGIONS[name] = fn
         return fn
     return deco
-
-
-@region("c10_trailing_newline")
-def c10_trailing_newline(inp):
-    """C10 / chord.validate_chord_label: a derivable label followed by exactly one final "\\n"
-    (complement of the hypothesis of Mir.C10.validate_iff_grammar_partial, intersected with acceptance)."""
-    from props.c10 import grammar
-    s = inp["label"]
-    return isinstance(s, str) and s.endswith("\n") and grammar(s[:-1]) is not None
